@@ -201,11 +201,6 @@ class Impl:
 # ---------------------------------------------------------------------------------------------
 # oracle
 
-def semantic(value_kind, val):
-    """reduce an implementation-side option value to something comparable with raw RFC bytes"""
-    return value_kind, val
-
-
 def opt_matches(raw, o):
     """does the parsed option object `o` carry the value the RFC bytes `raw` denote?"""
     v = o.value
@@ -722,7 +717,7 @@ def run_small(env, rep, impl):
     for n in sorted(set(range(0, 2101)) | set(impl.named) | {65535, 65536, 65804, 100000, 200000}):
         add({"kind": "fmt", "n": n}, "C01 fmt %d" % n, FMT_NAME.get(impl.OptionNumber(n).format.__name__, "?"),
             nontrivial=n in impl.named)
-        rep.count("fmt:" + lines[-1].split()[-1] if False else "fmt")
+        rep.count("fmt:" + outs[-1])
     compare(env, rep, cases, lines, outs, what="ext/fmt")
     rep.exhaustive_parts.append("format table 0..2100 and every named option number")
     rep.exhaustive_parts.append("extended-field writer 0..299 and every threshold +-2; reader 16 nibbles x 9 shapes")
